@@ -202,14 +202,14 @@ def apply(state, op, ctx, case):
             state["labels"].add("flavour:" + op["flavour"])
         return
     if kind == "new_instance":
-        # another Aspire object (its own, never fitted, supplied proposal) takes over; the file stays
+        # another Aspire object of the same kind (analytic: its own, never fitted, supplied proposal; zuko: an untrained flow of another seed) takes over; the file stays
         if state["aspire"] is None or state["stack"]:
             return
         fs0 = _file_state(path)
         if fs0 and fs0["has_flow"]:
             state["refit_after_file_flow"] = True
-        state["flavour"] = "analytic"
-        state["aspire"] = _make(state, "analytic", op["seed"])
+        # (same back-end as before: a file shared between instances of different flow back-ends is not a history of one problem)
+        state["aspire"] = _make(state, state["flavour"], op["seed"] + 1)
         state["fitted"] = False
         state["labels"].add("new-instance")
         return
